@@ -391,6 +391,7 @@ class FunctionExpression(Node):
     id: Optional[Identifier]
     params: List[Identifier]
     body: BlockStatement
+    is_method: bool = False  # written as a method, getter or setter of an object literal
 
 
 @dataclass
